@@ -831,7 +831,8 @@ def run(ctx):
     fams = [f for f in os.environ.get("C38_FAMILIES", "pre,post,authc,auths,wire").split(",") if f in bodies]  # diagnostics only
     tagged = []
     for f in fams:
-        tagged += [strategies[f].map(lambda c, f=f: (f, c))] * weights[f]
+        # distinct strategy objects: hypothesis' one_of de-duplicates identical ones, so repetition by `* n` would not weight
+        tagged += [strategies[f].map(lambda c, f=f: (f, c)) for _ in range(weights[f])]
     ctx.explore(st.one_of(*tagged), lambda fc: bodies[fc[0]](fc[1]), ctx.scale(520, 9000), shrink=False, seed_offset=1)
 
 
